@@ -1,0 +1,44 @@
+//go:build verif
+
+package flushable
+
+// Machine-checked contracts for /verif (read as text by the VC generator; no code).
+//
+// ---- flush-ID marks (C25) ----
+// gSeen[name]: the mark read from database 'name' by the running CheckDBsSynced (nil: no mark)
+//@ ghost gSeen[string] []byte
+//@ ghost gSeenErr[string] error
+//@ // a mark is one prefix byte (0xde dirty, 0x00 clean) followed by the flush ID
+//@ spec isMark(v []byte, prefix int, id []byte) bool = len(v) == len(id) + 1 && v[0] == prefix && forall(i, 0, len(id), v[i + 1] == id[i])
+//@ spec dirtyM(m []byte) bool = len(m) >= 1 && m[0] == 222
+//@ spec beq(a []byte, b []byte) bool = len(a) == len(b) && forall(i, 0, len(a), a[i] == b[i])
+//@
+//@ func MarkFlushID
+//@   requires db != nil && len(flushID) <= 4611686018427387904
+//@   modifies gKeyValueWriterPutN, gKeyValueWriterPutRecv, gKeyValueWriterPutA0, gKeyValueWriterPutA1, gKeyValueWriterPutR0, gWrOpN, gWrOpKind[*], gWrOpRecv[*], gWrOpKey[*], gWrOpVal[*], gWrOpErr[*]
+//@   ensures  gWrOpN == old(gWrOpN) + 1 && gWrOpKind[gWrOpN - 1] == 1 && gWrOpRecv[gWrOpN - 1] == db && gWrOpKey[gWrOpN - 1] == key && isMark(gWrOpVal[gWrOpN - 1], prefix, flushID) && result == gWrOpErr[gWrOpN - 1]
+//@   ensures  gKeyValueWriterPutN == old(gKeyValueWriterPutN) + 1 && gKeyValueWriterPutRecv == db && gKeyValueWriterPutA0 == key && isMark(gKeyValueWriterPutA1, prefix, flushID) && result == gKeyValueWriterPutR0
+//@
+//@ // CheckDBsSynced reports no error only if no database read has a dirty mark, every mark read equals the returned
+//@ // flush ID, and (when a flush ID is known) no database is without a mark; a given flush ID is returned unchanged.
+//@ // An error is returned only for a failed read, a dirty mark, a mark different from the flush ID, or a database
+//@ // without mark next to a known flush ID.
+//@ func CheckDBsSynced
+//@   requires forall(n string, has(dbs, n) ==> dbs[n] != nil)
+//@   modifies gSeen[*], gSeenErr[*], gKeyValueReaderGetN, gKeyValueReaderGetRecv, gKeyValueReaderGetA0, gKeyValueReaderGetR0, gKeyValueReaderGetR1
+//@   at call KeyValueReader.Get[1] ghost gSeen[name] = gKeyValueReaderGetR0 after
+//@   at call KeyValueReader.Get[1] ghost gSeenErr[name] = gKeyValueReaderGetR1 after
+//@   ensures  [given] flushID != nil ==> result0 == flushID
+//@   ensures  [clean] result1 == nil ==> forall(n string, has(dbs, n) ==> gSeenErr[n] == nil && !(gSeen[n] != nil && dirtyM(gSeen[n])) && (gSeen[n] != nil ==> beq(gSeen[n], result0)) && (result0 != nil ==> gSeen[n] != nil))
+//@   ensures  [fresh] result1 == nil && result0 == nil ==> forall(n string, has(dbs, n) ==> gSeen[n] == nil)
+//@   loop 1 modifies descrs[*], gSeen[*], gSeenErr[*], gKeyValueReaderGetN, gKeyValueReaderGetRecv, gKeyValueReaderGetA0, gKeyValueReaderGetR0, gKeyValueReaderGetR1
+//@   loop 1 invariant arrof(descrs) == arrof(atentry(descrs)) || arrfresh(descrs, _loopalloc)
+//@   loop 1 invariant arrof(descrs) == 0 || arrfresh(descrs, old(_alloc))
+//@   loop 1 invariant (flushID != nil ==> cur(flushID) == flushID)
+//@   loop 1 invariant forall(n string, _visited[n] ==> gSeenErr[n] == nil && !(gSeen[n] != nil && dirtyM(gSeen[n])) && (gSeen[n] != nil ==> cur(flushID) != nil && beq(gSeen[n], cur(flushID))))
+//@   loop 1 invariant forall(n string, _visited[n] ==> !arrfresh(gSeen[n], _alloc)) && !arrfresh(cur(flushID), _alloc)
+//@   loop 1 invariant nonInit == exists(n string, _visited[n] && gSeen[n] == nil)
+//@   loop 1 invariant cur(flushID) != nil && flushID == nil ==> exists(n string, _visited[n] && gSeen[n] == cur(flushID))
+//@ // the closure that formats the list of marks for error messages
+//@ func CheckDBsSynced$1
+//@   ensures true
